@@ -293,6 +293,8 @@ class SymmetryTranslator:
                     used_inequalities.append((op, lit, pos))
                 if not fine:
                     break
+            if fine and self._cyclic_order(used_inequalities, inequalities):
+                fine = False  # X < Y, Y < Z, Z < X: the body never holds, it does not count distinct values
             if fine and len(used_inequalities) > 0:
                 potential_equalities.append(set(equality))
                 potential_strict_inequalities.append(defaultdict(list))
@@ -310,6 +312,26 @@ class SymmetryTranslator:
             global_vars,
             in_aggregate,
         )
+
+    @staticmethod
+    def _cyclic_order(
+        used_inequalities: list[tuple[ComparisonOperator, AST, int]], inequalities: "SymmetryTranslator.Inequalities"
+    ) -> bool:
+        """True if the < comparisons that are used contain a cycle"""
+        smaller: dict[AST, set[AST]] = defaultdict(set)  # smaller[X] = all Y with X < Y
+        for op, lit, _ in used_inequalities:
+            if op == ComparisonOperator.LessThan:
+                for other, var1, var2 in inequalities[ComparisonOperator.LessThan]:
+                    if other == lit:
+                        smaller[var1].add(var2)
+        todo = {var for var, larger in smaller.items() if larger}
+        while todo:
+            # a variable that is not below any variable still to be ordered can be removed
+            top = [var for var in todo if not smaller[var].intersection(todo)]
+            if not top:
+                return True
+            todo.difference_update(top)
+        return False
 
     @staticmethod
     def _inequalities(body: Iterable[AST]) -> Inequalities:
